@@ -166,6 +166,10 @@ def run_z3_cli(text, timeout_ms):
 
 
 # ---------------------------------------------------------------------- portfolio
+def _weak(job):
+    return job.get('z3_weak')
+
+
 def solve_one(job):
     """job: dict(name, z3_text|None, cvc5_text, outputs, budget_ms). Runs in a worker."""
     outputs = job.get('outputs') or []
@@ -175,15 +179,19 @@ def solve_one(job):
     if job.get('z3_text'):
         res = run_z3(job['z3_text'], outputs, budget)
         attempts.append({k: res.get(k) for k in ('backend', 'answer', 'time', 'detail')})
-        if res['answer'] in ('sat', 'unsat'):
+        if res['answer'] == 'unsat' or (res['answer'] == 'sat' and not _weak(job)):
             res['attempts'] = attempts
             return res
+        if res['answer'] == 'sat':
+            attempts[-1]['detail'] = 'sat under incomplete cardinality axioms: not trusted'
+            res = None
     res2 = run_cvc5(job['cvc5_text'], outputs, budget)
     attempts.append({k: res2.get(k) for k in ('backend', 'answer', 'time', 'detail')})
-    if res2['answer'] not in ('sat', 'unsat') and job.get('z3_text') and os.path.exists(OLD_Z3):
+    if res2['answer'] not in ('sat', 'unsat') and job.get('z3_text') and os.path.exists(OLD_Z3) \
+            and 'lambda' not in job['z3_text']:
         res3 = run_z3_cli(job['z3_text'], budget)
         attempts.append({k: res3.get(k) for k in ('backend', 'answer', 'time', 'detail')})
-        if res3['answer'] in ('sat', 'unsat'):
+        if res3['answer'] == 'unsat' or (res3['answer'] == 'sat' and not _weak(job)):
             res3['attempts'] = attempts
             return res3
     res2['attempts'] = attempts
@@ -196,13 +204,13 @@ def solve_one(job):
 def make_job(name, assertions, outputs=None, budget_ms=10000):
     outs = {'out!' + k: v for k, v in (outputs or {}).items()}
     z3_text = None
-    if not _needs_cvc5(list(assertions) + list(outs.values())):
-        try:
-            z3_text = smt.script(assertions, 'z3', outs)
-        except smt.Unsupported:
-            z3_text = None
+    weak = _needs_cvc5(list(assertions) + list(outs.values()))
+    try:
+        z3_text = smt.script(assertions, 'z3', outs)
+    except smt.Unsupported:
+        z3_text = None
     cvc5_text = smt.script(assertions, 'cvc5', outs)
-    return {'name': name, 'z3_text': z3_text, 'cvc5_text': cvc5_text,
+    return {'name': name, 'z3_text': z3_text, 'cvc5_text': cvc5_text, 'z3_weak': weak,
             'outputs': list(outs), 'budget_ms': budget_ms}
 
 
@@ -250,6 +258,14 @@ def solve_many(jobs, hard_factor=4):
 def quick_sat(assertions, timeout_ms=300):
     """In-process feasibility test used for path pruning: returns 'unsat' only
     when z3 proves it; anything else counts as feasible."""
+    if _needs_cvc5(assertions):
+        # z3 with the weak cardinality axioms can only prove infeasibility
+        try:
+            if run_z3(smt.script(assertions, 'z3'), [], timeout_ms)['answer'] == 'unsat':
+                return 'unsat'
+        except smt.Unsupported:
+            pass
+        return run_cvc5(smt.script(assertions, 'cvc5'), [], timeout_ms, want_model=False)['answer']
     try:
         text = smt.script(assertions, 'z3')
     except smt.Unsupported:
